@@ -5,6 +5,7 @@ import ChfVerif.Lemmas.BerSafe
 import ChfVerif.Lemmas.BerMarshalSafe
 import ChfVerif.Gen.Schema
 import ChfVerif.Gen.AsnGlobals
+import ChfVerif.Spec.C05Domain
 /-
   C05 — decode(encode(v)) = v.
 
@@ -281,6 +282,167 @@ example : Canon
     (.struct (.cons .nil (.cons (.bool true) (.cons (.choice 2 (.cons .nil (.cons (.int 7) .nil))) .nil)))) := by
   refine .struct (.absent rfl (.present (.ptr .bool) (.present ?_ .nil)))
   exact .choice (v := .int 7) (by decide) (.there (.here (.enum ⟨by decide, by decide⟩))) rfl rfl
+
+/-! ### the domain the check judges (`ber dom` of the driver) is one the law is proved for -/
+
+open Chf.Ber in
+theorem primParams_tag {p : Params} (h : primParams p = true) : ∀ n, p.tagNumber = some n → n < 9223372036854775808 := by
+  intro n hn
+  simpa [primParams, hn] using h
+
+open Chf.Ber in
+theorem trunc32_range (i : Int) (h : truncInt 32 i = i) : -(2 : Int) ^ (32 - 1) ≤ i ∧ i < (2 : Int) ^ (32 - 1) := by
+  have h1 : (2 : Int) ^ (32 - 1) = 2147483648 := by decide
+  have h2 : (2 : Int) ^ 32 = 4294967296 := by decide
+  unfold truncInt at h
+  simp only [show ¬ (32 ≥ 64) by decide, if_false, h1, h2] at h
+  rw [h1]
+  split at h <;> omega
+
+open Chf.Ber in
+theorem int_range (w : Nat) (hw : w = 32 ∨ w = 64) (i : Int) (h64 : int64 i) (ht : truncInt w i = i) :
+    -(2 : Int) ^ (w - 1) ≤ i ∧ i < (2 : Int) ^ (w - 1) := by
+  rcases hw with rfl | rfl
+  · exact trunc32_range i ht
+  · have h1 : (2 : Int) ^ (64 - 1) = 9223372036854775808 := by decide
+    rw [h1]; unfold int64 at h64; omega
+
+open Chf.Ber in
+/-- primitives under any tagging, behind pointers and (INTEGER, ENUMERATED, OCTET STRING, character strings) a Value wrapper -/
+theorem prim_domain_rt : ∀ (t : Ty) (p : Params) (v : Val), primDomain t p = true → Canon t v →
+    ∀ b, marshal t p v = .ok b → b.length < 4611686018427387904 → unmarshal t p b = .ok v
+  | .ptr t, p, v, hd, hv, b, hm, hl => by
+    cases hv with
+    | ptr hv' =>
+      have hne := canon_ne_nil hv'
+      have e1 : marshal (.ptr t) p v = marshal t p v := by simp [marshal, hne]
+      rw [e1] at hm
+      rw [unmarshal]
+      exact prim_domain_rt t p v (by simpa [primDomain] using hd) hv' b hm hl
+  | .bool, p, v, hd, hv, b, hm, _ => by
+    cases hv with
+    | bool => exact C05_boolean p _ (primParams_tag (by simpa [primDomain] using hd)) b hm
+  | .enum, p, v, hd, hv, b, hm, _ => by
+    cases hv with
+    | enum hi => exact C05_enumerated p _ hi (primParams_tag (by simpa [primDomain] using hd)) b hm
+  | .null, p, v, hd, hv, b, hm, _ => by
+    cases hv with
+    | null => exact C05_null p (primParams_tag (by simpa [primDomain] using hd)) b hm
+  | .int w, p, v, hd, hv, b, hm, _ => by
+    simp only [primDomain, Bool.and_eq_true, Bool.or_eq_true, beq_iff_eq] at hd
+    cases hv with
+    | int h64 ht => exact C05_integer w hd.1 p _ (int_range w hd.1 _ h64 ht) (primParams_tag hd.2) b hm
+  | .octets, p, v, hd, hv, b, hm, hl => by
+    cases hv with
+    | octets =>
+      rename_i bs
+      have hlen : bs.length + 44 < 9223372036854775808 := by
+        have hm' := hm
+        rw [marshal] at hm'
+        simp only [Res.ok.injEq] at hm'
+        have := finish_length_ge p false 4 bs
+        rw [hm'] at this
+        omega
+      exact C05_octet_string p bs (primParams_tag (by simpa [primDomain] using hd)) hlen b hm
+  | .str d, p, v, hd, hv, b, hm, hl => by
+    simp only [primDomain, Bool.and_eq_true, decide_eq_true_eq] at hd
+    cases hv with
+    | str =>
+      rename_i bs
+      have hlen : bs.length + 44 < 9223372036854775808 := by
+        have hm' := hm
+        rw [marshal] at hm'
+        simp only [Res.ok.injEq] at hm'
+        have := finish_length_ge p false (stringTagOf p d) bs
+        rw [hm'] at this
+        omega
+      exact C05_string d p bs (primParams_tag hd.1) hd.2 hlen b hm
+  | .bits, p, v, hd, hv, b, hm, hl => by
+    cases hv with
+    | bits h1 h2 =>
+      rename_i bs n
+      have hlen : bs.length + 45 < 9223372036854775808 := by
+        have hm' := hm
+        rw [marshal] at hm'
+        simp only [Res.ok.injEq] at hm'
+        have := finish_length_ge p false 3 (((8 - n % 8) % 8) :: bs)
+        rw [hm'] at this
+        simp only [List.length_cons] at this
+        omega
+      exact C05_bit_string p bs n (primParams_tag (by simpa [primDomain] using hd)) hlen h1 h2 b hm
+  | .wrap (.int w), p, v, hd, hv, b, hm, _ => by
+    simp only [primDomain, Bool.and_eq_true, Bool.or_eq_true, beq_iff_eq] at hd
+    cases hv with
+    | wrap hv' =>
+      cases hv' with
+      | int h64 ht => exact C05_wrapped_integer w hd.1 p _ (int_range w hd.1 _ h64 ht) (primParams_tag hd.2) b hm
+  | .wrap .enum, p, v, hd, hv, b, hm, _ => by
+    cases hv with
+    | wrap hv' =>
+      cases hv' with
+      | enum hi => exact C05_wrapped_enumerated p _ hi (primParams_tag (by simpa [primDomain] using hd)) b hm
+  | .wrap .octets, p, v, hd, hv, b, hm, hl => by
+    cases hv with
+    | wrap hv' =>
+      cases hv' with
+      | octets =>
+        rename_i bs
+        have hlen : bs.length + 44 < 9223372036854775808 := by
+          have hm' := hm
+          rw [marshal, marshal] at hm'
+          simp only [Res.ok.injEq] at hm'
+          have := finish_length_ge p false 4 bs
+          rw [hm'] at this
+          omega
+        exact C05_wrapped_octet_string p bs (primParams_tag (by simpa [primDomain] using hd)) hlen b hm
+  | .wrap (.str d), p, v, hd, hv, b, hm, hl => by
+    simp only [primDomain, Bool.and_eq_true, decide_eq_true_eq] at hd
+    cases hv with
+    | wrap hv' =>
+      cases hv' with
+      | str =>
+        rename_i bs
+        have hlen : bs.length + 44 < 9223372036854775808 := by
+          have hm' := hm
+          rw [marshal, marshal] at hm'
+          simp only [Res.ok.injEq] at hm'
+          have := finish_length_ge p false (stringTagOf p d) bs
+          rw [hm'] at this
+          omega
+        exact C05_wrapped_string d p bs (primParams_tag hd.1) hd.2 hlen b hm
+  | .oid, _, _, hd, _, _, _, _ => by simp [primDomain] at hd
+  | .slice _, _, _, hd, _, _, _, _ => by simp [primDomain] at hd
+  | .choice _, _, _, hd, _, _, _, _ => by simp [primDomain] at hd
+  | .struct _, _, _, hd, _, _, _, _ => by simp [primDomain] at hd
+  | .unsupported, _, _, hd, _, _, _, _ => by simp [primDomain] at hd
+  | .wrap .bool, _, _, hd, _, _, _, _ => by simp [primDomain] at hd
+  | .wrap .bits, _, _, hd, _, _, _, _ => by simp [primDomain] at hd
+  | .wrap .null, _, _, hd, _, _, _, _ => by simp [primDomain] at hd
+  | .wrap .oid, _, _, hd, _, _, _, _ => by simp [primDomain] at hd
+  | .wrap (.ptr _), _, _, hd, _, _, _, _ => by simp [primDomain] at hd
+  | .wrap (.slice _), _, _, hd, _, _, _, _ => by simp [primDomain] at hd
+  | .wrap (.wrap _), _, _, hd, _, _, _, _ => by simp [primDomain] at hd
+  | .wrap (.choice _), _, _, hd, _, _, _, _ => by simp [primDomain] at hd
+  | .wrap (.struct _), _, _, hd, _, _, _, _ => by simp [primDomain] at hd
+  | .wrap .unsupported, _, _, hd, _, _, _, _ => by simp [primDomain] at hd
+
+open Chf.Ber in
+/-- C05 on the whole domain the check judges: for every (type, parameters) the driver answers `in` for, every canonical
+    value that marshals is brought back by unmarshal -/
+theorem C05_domain (t : Ty) (p : Params) (v : Val) (hd : inDomain t p = true) (hv : Canon t v)
+    (b : Bytes) (hm : marshal t p v = .ok b) (hl : b.length < 4611686018427387904) : unmarshal t p b = .ok v := by
+  unfold inDomain at hd
+  by_cases h : (rtTy t && rtParams p) = true
+  · simp only [Bool.and_eq_true] at h
+    exact C05 t p v h.1 h.2 hv b hm hl
+  · have hp : primDomain t p = true := by
+      cases h' : (rtTy t && rtParams p) <;> simp_all
+    exact prim_domain_rt t p v hp hv b hm hl
+
+open Chf.Ber in
+/-- every schema type is in it, under the parameters the CHF uses (none, and "explicit,choice" for the record) -/
+theorem C05_domain_schema :
+    Gen.schema.all (fun e => inDomain e.2 {} && inDomain e.2 ⟨false, none, true, false, false, 0⟩) = true := by decide +kernel
 
 /-! ### histories of calls: the octets marshal returns are a value, not a view of storage shared with later calls
 
